@@ -138,6 +138,7 @@ def gen_session(rng, tier):
                 d = bytes([rng.randrange(0x40, 0x100)]) + rng.randbytes(rng.randrange(0, 40)) if rng.random() < .8 else rng.randbytes(rng.randrange(0, 19))
                 L.append((f"sock turn dgram {hx(d)}" if rng.random() < .7 else f"sock turn from {rng.randrange(4)} {hx(d)}") if d else "sock turn dgram -")
         return L
+    n_long = 0
     cp_sent, cb_sent = 0, 0          # requests that went out so far (upper bounds: replies to unknown seq are `bad-op` on both sides)
     chan_of, next_chan = {}, 0x4000
     n = rng.randrange(4, 30 if tier == "quick" else 80)
@@ -145,7 +146,14 @@ def gen_session(rng, tier):
         r = rng.random()
         if rng.random() < 0.12:
             # the virtual clock advances: request retransmissions (500 ms, 1000 ms, 500 ms) and time-outs
-            L.append(f"sock turn advance {rng.choice([100, 400, 499, 500, 501, 1000, 1500, 2100])}")
+            adv = rng.choice([100, 400, 499, 500, 501, 1000, 1500, 2100, 2100, 243000, 243000])   # 243 s: past the 240 s timer whatever GLib's whole-second rounding does
+            if adv > 10000:
+                # four minutes pass: the periodic 240 s timer forgets every installed permission (at most twice per session:
+                # the 540 s channel timers are outside the model)
+                n_long += 1
+                if n_long > 2:
+                    adv = 2100
+            L.append(f"sock turn advance {adv}")
             cp_sent += 1; cb_sent += 1
             continue
         if r < 0.42:
